@@ -4,7 +4,7 @@
 (* settable links taken in table order (each link set to the first candidate of its sort; sequence links pushed twice  *)
 (* with both candidates).  After every step the full expected observation of the node is part of the behaviour.       *)
 EXTENDS IprMake, Json
-CONSTANTS Use, MaxLinks, Record
+CONSTANTS Use, MaxLinks, Record, Mode      \* Mode "sweep": one node and its links; "twins": the same call made twice in a row
 VARIABLES hist, nextlink, nset
 vars == <<made, mklast, hist, nextlink, nset>>
 
@@ -12,13 +12,14 @@ RECURSIVE Combos(_, _)
 Combos(params, k) == IF k > Len(params) THEN {<<>>}
                      ELSE {<<x>> \o rest : x \in {Cand[params[k]][i] : i \in 1..Len(Cand[params[k]])}, rest \in Combos(params, k + 1)}
 
+TwinFactories == {f \in FactoryNames : Factory[f].cat \notin {"Var", "Field", "Bitfield", "Typedecl", "Alias", "Fundecl", "Template"}}
 Init == MkInit /\ hist = <<>> /\ nextlink = 0 /\ nset = 0
 DoMake == /\ Len(made) = 0
           /\ \E f \in Use : \E a \in Combos(Factory[f].params, 1) :
                 /\ Make(f, a)
                 /\ nextlink' = 1 /\ nset' = 0
                 /\ hist' = (IF Record THEN <<[ev |-> mklast', o |-> Expected(made', IdOf(1))]>> ELSE <<>>)
-DoSet == /\ Len(made) = 1 /\ nset < MaxLinks
+DoSet == /\ Mode = "sweep" /\ Len(made) = 1 /\ nset < MaxLinks
          /\ LET L == Factory[made[1].f].links IN
             \E j \in nextlink..Len(L) :
                \E v \in (IF L[j].kind = "push" THEN {Cand[L[j].sort][1], Cand[L[j].sort][2]} ELSE {Cand[L[j].sort][1]}) :
@@ -27,10 +28,19 @@ DoSet == /\ Len(made) = 1 /\ nset < MaxLinks
                                   ELSE IF L[j].kind = "push" THEN j ELSE j + 1)
                   /\ nset' = nset + 1
                   /\ hist' = (IF Record THEN Append(hist, [ev |-> mklast', o |-> Expected(made', IdOf(1))]) ELSE hist)
-Next == DoMake \/ DoSet
+\* C05: each call of a generative factory yields a node of its own, also when the very same call was the previous one; the
+\* first node reads as before
+DoTwin == /\ Mode = "twins" /\ Len(made) = 1
+          /\ Make(made[1].f, made[1].a)
+          /\ UNCHANGED <<nextlink, nset>>
+          /\ hist' = (IF Record THEN hist \o <<[ev |-> mklast', o |-> Expected(made', IdOf(2))],
+                                                [ev |-> [op |-> "observe", f |-> "", a |-> <<>>, n |-> IdOf(1), l |-> "", v |-> 0, r |-> IdOf(1)],
+                                                 o |-> Expected(made', IdOf(1))]>> ELSE hist)
+Next == DoMake \/ DoSet \/ DoTwin
 Spec == Init /\ [][Next]_vars
 \* every state is a complete behaviour worth replaying (prefix-closed would double the work: emit only maximal ones)
-Maximal == Len(made) = 1 /\ (nset = MaxLinks \/ nextlink > Len(Factory[made[1].f].links))
+Maximal == IF Mode = "twins" THEN Len(made) = 2
+           ELSE Len(made) = 1 /\ (nset = MaxLinks \/ nextlink > Len(Factory[made[1].f].links))
 Emit == (Record /\ Maximal) => PrintT(<<"BEH", ToJson(hist)>>)
 TableSane == \A f \in FactoryNames :
                 /\ \A x \in DOMAIN Factory[f].acc :
